@@ -446,6 +446,87 @@ class Expander:
                 x._inlined_from = callee.key
         return pre, new
 
+    def _for_over_generator(self, st, t):
+        """`for X in gen(args): BODY` with gen an unlisted simple generator -> gen's body with `X = <yielded>; BODY` where it yields.
+        Accepted shapes of the generator: statements without yield / return, then either nothing more (all yields at the top level or under
+        ifs; BODY may then not break / continue) or one last loop that holds every yield directly in its body or under ifs (a `return` there is
+        a `break`; BODY's own `break` then leaves that loop, BODY's `continue` is accepted only where a yield ends an iteration)."""
+        def loop_level(nodes, kinds):
+            # statements of `kinds` that belong to the loop level of `nodes` (not inside nested loops / functions)
+            out = []
+            stack = list(nodes)
+            while stack:
+                n = stack.pop()
+                if isinstance(n, kinds):
+                    out.append(n)
+                if isinstance(n, (ast.For, ast.AsyncFor, ast.While) + _FUNC + (ast.Lambda, ast.ClassDef)):
+                    continue
+                stack.extend(ast.iter_child_nodes(n))
+            return out
+
+        def has_yield_or_return(n):
+            return any(isinstance(x, (ast.Yield, ast.Return)) for x in ast.walk(n))
+
+        pre, body = self._body(t, st.iter, self._names | {z.id for z in ast.walk(st) if isinstance(z, ast.Name)})
+        if not body:
+            return None
+        consumer_breaks = loop_level(st.body, (ast.Break,))
+        consumer_continues = loop_level(st.body, (ast.Continue,))
+        last = body[-1]
+        head = body[:-1]
+        if isinstance(last, (ast.For, ast.While)) and not last.orelse and has_yield_or_return(last) and not any(has_yield_or_return(h) for h in head):
+            inner = last.body
+            # yields / returns only at the loop level of that loop
+            deep = [x for x in ast.walk(last) if isinstance(x, (ast.Yield, ast.Return))]
+            lvl = loop_level(inner, (ast.Return,)) + [y.value for y in loop_level(inner, (ast.Expr,)) if isinstance(y.value, ast.Yield)]
+            if len(deep) != len(lvl):
+                return None
+            if isinstance(last, ast.For) and has_yield_or_return(last.iter) or isinstance(last, ast.While) and has_yield_or_return(last.test):
+                return None
+            if consumer_continues:
+                # a yield must be the last thing of an iteration wherever it stands
+                def ends_iteration(block):
+                    for i, s_ in enumerate(block):
+                        if isinstance(s_, ast.Expr) and isinstance(s_.value, ast.Yield) and i != len(block) - 1:
+                            return False
+                        if isinstance(s_, ast.If):
+                            if (has_yield_or_return(s_) and any(isinstance(x, ast.Yield) for x in ast.walk(s_))) and i != len(block) - 1:
+                                return False
+                            if not ends_iteration(s_.body) or not ends_iteration(s_.orelse):
+                                return False
+                    return True
+                if not ends_iteration(inner):
+                    return None
+            ret_to = ast.Break
+        else:
+            if any(isinstance(x, ast.Return) for b in body for x in ast.walk(b)) or consumer_breaks or consumer_continues:
+                return None
+            if any(isinstance(x, ast.Yield) for b in body for x in ast.walk(b) if isinstance(b, (ast.For, ast.While, ast.Try, ast.With))):
+                return None
+            ret_to = None
+        target, cbody = st.target, st.body
+
+        class Y(ast.NodeTransformer):
+            def visit_Expr(self, node):
+                if isinstance(node.value, ast.Yield):
+                    asg = ast.copy_location(ast.Assign(targets=[clone(target)], value=node.value.value), node)
+                    return [asg] + [clone(b) for b in cbody]
+                return node
+
+            def visit_Return(self, node):
+                return ast.copy_location(ret_to(), node) if ret_to is not None else node
+
+            def visit_FunctionDef(self, node):
+                return node
+            visit_AsyncFunctionDef = visit_Lambda = visit_FunctionDef
+        new = []
+        for b in body:
+            r = Y().visit(b)
+            new.extend(r if isinstance(r, list) else [r])
+        for z in new:
+            ast.fix_missing_locations(z)
+        return pre + new
+
     # -- resolution ------------------------------------------------------------------------------------------------
     def target(self, caller, call, awaited, generator=False):
         r = self.repo.resolve_call(caller, call)
@@ -591,6 +672,42 @@ class Expander:
                     self._grow(pre + new)
                     self._note(t, "extend")
                     return self._block(pre + new) or [ast.copy_location(ast.Pass(), st)]
+            if isinstance(st, ast.Assign) and len(st.targets) == 1 and isinstance(st.targets[0], ast.Name) and isinstance(st.value, ast.ListComp) and \
+                    len(st.value.generators) == 1 and not st.value.generators[0].is_async and isinstance(st.value.generators[0].iter, ast.Call) and \
+                    self.target(caller, st.value.generators[0].iter, False, generator=True):
+                # x = [E for v in gen(...) if c]  with gen an unlisted simple generator  ->  x = []; for v in gen(...): if c: x.append(E)
+                g0 = st.value.generators[0]
+                x = st.targets[0].id
+                if not any(isinstance(z, ast.Name) and z.id == x for z in ast.walk(st.value)):
+                    self.counter += 1
+                    ren = {}
+                    for z in ast.walk(g0.target):
+                        if isinstance(z, ast.Name) and z.id in self._names:
+                            ren[z.id] = "%s__cmp%d" % (z.id, self.counter)
+                            self._names.add(ren[z.id])
+                    sub = _Subst({}, ren)
+                    tgt = sub.visit(clone(g0.target))
+                    for z in ast.walk(tgt):
+                        if isinstance(z, ast.Name):
+                            z.ctx = ast.Store()
+                    inner = [ast.Expr(value=ast.Call(func=ast.Attribute(value=ast.Name(id=x, ctx=ast.Load()), attr="append", ctx=ast.Load()),
+                                                     args=[sub.visit(clone(st.value.elt))], keywords=[]))]
+                    for c_ in reversed(g0.ifs):
+                        inner = [ast.If(test=sub.visit(clone(c_)), body=inner, orelse=[])]
+                    loop = ast.For(target=tgt, iter=g0.iter, body=inner, orelse=[], type_comment=None)
+                    init = ast.Assign(targets=[ast.Name(id=x, ctx=ast.Store())], value=ast.List(elts=[], ctx=ast.Load()))
+                    for z in (init, loop):
+                        ast.copy_location(z, st)
+                        ast.fix_missing_locations(z)
+                    return self._block([init, loop])
+            if isinstance(st, ast.For) and not st.orelse and isinstance(st.iter, ast.Call):
+                t = self.target(caller, st.iter, False, generator=True)
+                if t:
+                    new = self._for_over_generator(st, t)
+                    if new is not None:
+                        self._grow(new)
+                        self._note(t, "for")
+                        return self._block(new)
             if isinstance(st, ast.Expr):
                 call, aw = self._call_of(st.value)
                 t = call is not None and self.target(caller, call, aw)
@@ -2079,6 +2196,32 @@ class _FoldLiterals(ast.NodeTransformer):
         self.generic_visit(node)
         if node.orelse:
             return node
+        if isinstance(node.iter, ast.Call) and dotted(node.iter.func) in ("itertools.count", "count") and isinstance(node.target, ast.Name) and \
+                not node.iter.keywords and len(node.iter.args) <= 1 and all(isinstance(a, ast.Constant) and isinstance(a.value, int) for a in node.iter.args) and \
+                (dotted(node.iter.func) == "itertools.count" or self.module.imports.get("count") == "itertools.count"):
+            # for c in itertools.count(a): BODY   ->   c = a; while True: BODY; c += 1      (BODY neither continues nor assigns c)
+            c = node.target.id
+
+            def level(nodes, kind):
+                stack, out = list(nodes), []
+                while stack:
+                    n_ = stack.pop()
+                    if isinstance(n_, kind):
+                        out.append(n_)
+                    if isinstance(n_, (ast.For, ast.AsyncFor, ast.While) + _FUNC + (ast.Lambda, ast.ClassDef)):
+                        continue
+                    stack.extend(ast.iter_child_nodes(n_))
+                return out
+            if not level(node.body, ast.Continue) and not any(isinstance(x, ast.Name) and x.id == c and isinstance(x.ctx, (ast.Store, ast.Del))
+                                                               for b in node.body for x in ast.walk(b)):
+                start = node.iter.args[0] if node.iter.args else ast.Constant(value=0)
+                init = ast.copy_location(ast.Assign(targets=[ast.Name(id=c, ctx=ast.Store())], value=start), node)
+                inc = ast.AugAssign(target=ast.Name(id=c, ctx=ast.Store()), op=ast.Add(), value=ast.Constant(value=1))
+                loop = ast.copy_location(ast.While(test=ast.Constant(value=True), body=list(node.body) + [inc], orelse=[]), node)
+                ast.fix_missing_locations(init)
+                ast.fix_missing_locations(loop)
+                self.count += 1
+                return [init, loop]
         els = self._iter_elems(node.iter)
         if els is None or not els:
             return node
